@@ -19,4 +19,5 @@ var Registry = map[string]func() *vlib.Plan{
 	"C14": C14Plan,
 	"C15": C15Plan,
 	"C16": C16Plan,
+	"C18": C18Plan,
 }
